@@ -209,6 +209,9 @@ func (p *flagParser) parseArray() (interface{}, error) {
 loop:
 	for {
 		p.ignoreWhitespace()
+		if p.input == "" {
+			return nil, errors.New("array closing ']' missing")
+		}
 		if p.input[0] == ']' {
 			p.input = p.input[1:]
 			break
@@ -254,6 +257,9 @@ func (p *flagParser) parseObj() (interface{}, error) {
 loop:
 	for {
 		p.ignoreWhitespace()
+		if p.input == "" {
+			return nil, errors.New("dictionary expected ',' or '}'")
+		}
 		if p.input[0] == '}' {
 			p.input = p.input[1:]
 			break
